@@ -329,7 +329,9 @@ impl ToSocketAddrs for UdpLocator {
                 );
                 Ok(Some(SocketAddr::V4(address)).into_iter())
             }
-            LOCATOR_KIND_UDP_V6 => todo!(),
+            // Only IPv4 sockets are opened by this transport so there is no way
+            // to reach an UDPv6 locator. The caller skips locators returning an error
+            LOCATOR_KIND_UDP_V6 => Err(std::io::ErrorKind::Unsupported.into()),
             _ => Err(std::io::ErrorKind::InvalidInput.into()),
         }
     }
